@@ -1,33 +1,174 @@
-(* a replacement that passes [speaks_list] speaks whatever its conditions evaluate to *)
+(* the evaluator of replacements (Model/RuleAst.v): a replacement that passes [speaks_items] speaks whatever its
+   conditions evaluate to; a list is evaluated item by item; a test gives the part of its first entry that decides *)
 From MC Require Import Lib.Base Model.RuleAst.
+Local Open Scope N_scope.
+
+Lemma spoken_app a b : spoken (a ++ b) = (spoken a + spoken b)%nat.
+Proof. unfold spoken. rewrite filter_app, app_length. reflexivity. Qed.
+Lemma spoken_cons e a : spoken (e :: a) = ((if speaking e then 1 else 0) + spoken a)%nat.
+Proof. unfold spoken. cbn [filter]. destruct (speaking e); reflexivity. Qed.
 
 Theorem L_speaks_sound :
-  (forall r, speaksb r = true -> forall s, (0 < fst (eval r s))%nat) /\
-  (forall rs, speaks_list rs = true -> forall s, (0 < fst (evals rs s))%nat) /\
-  (forall bs, speaks_branches bs = true -> forall s, (0 < fst (evalb bs s))%nat) /\
-  (forall e, match e with ESome rs => speaks_list rs = true -> forall s, (0 < fst (evals rs s))%nat | ENone => True end).
+  (forall i, speaksb i = true -> forall s, (0 < spoken (fst (tr_item i s)))%nat) /\
+  (forall r, speaks_items r = true -> forall s, (0 < spoken (fst (tr_items r s)))%nat) /\
+  (forall es, speaks_entries es = true -> forall s, (0 < spoken (fst (tr_entries es s)))%nat) /\
+  (forall p, speaks_part p = true -> forall s, (0 < spoken (fst (tr_part p s)))%nat).
 Proof.
   apply rule_ast_ind.
-  - (* RText *) intros b H s. cbn in *. subst b. cbn. lia.
-  - (* RXpath *) intros _ s. cbn. lia.
-  - (* RSilent *) intros H. discriminate.
-  - (* RWrap *) intros body IH H s. cbn in *. apply IH. exact H.
-  - (* RTest *) intros bs IHb H s. cbn in *. apply IHb. exact H.
-  - (* RNil *) intros H. discriminate.
-  - (* RCons *) intros r IHr rs IHrs H s. cbn [speaks_list] in H. cbn [evals].
-    destruct (eval r s) as [n s1] eqn:E1. destruct (evals rs s1) as [m s2] eqn:E2. cbn [fst].
+  - (* IText *) intros b H s. cbn in H. subst b. cbn. lia.
+  - (* IX *) intros _ s. cbn. lia.
+  - (* ITts *) intros sp body IH H s. cbn [speaksb] in H. cbn [tr_item].
+    destruct (tr_items body s) as [e s1] eqn:E. cbn [fst]. rewrite spoken_cons.
+    destruct sp; [cbn; lia|]. cbn [orb] in H. specialize (IH H s). rewrite E in IH. cbn [fst] in IH. lia.
+  - (* IIntent *) intros body IH H s. cbn [speaksb] in H. cbn [tr_item].
+    destruct (tr_items body s) as [e s1] eqn:E. cbn [fst]. rewrite spoken_cons.
+    specialize (IH H s). rewrite E in IH. cbn [fst] in IH. lia.
+  - (* ITest *) intros es IH H s. cbn [speaksb] in H. cbn [tr_item].
+    destruct (tr_entries es s) as [e s1] eqn:E. cbn [fst]. rewrite spoken_cons.
+    specialize (IH H s). rewrite E in IH. cbn [fst] in IH. lia.
+  - (* IWith *) intros body IH H s. cbn [speaksb] in H. cbn [tr_item].
+    destruct (tr_items body s) as [e s1] eqn:E. cbn [fst]. rewrite spoken_cons.
+    specialize (IH H s). rewrite E in IH. cbn [fst] in IH. lia.
+  - (* ISetVars *) intros H. discriminate.
+  - (* IInsert *) intros body _ H. discriminate.
+  - (* ITranslate *) intros _ s. cbn. lia.
+  - (* IBad *) intros H. discriminate.
+  - (* INil *) intros H. discriminate.
+  - (* ICons *) intros i IHi r IHr H s. cbn [speaks_items] in H. cbn [tr_items].
+    destruct (tr_item i s) as [e1 s1] eqn:E1. destruct (tr_items r s1) as [e2 s2] eqn:E2. cbn [fst]. rewrite spoken_app.
     apply orb_true_iff in H. destruct H as [H|H].
-    + specialize (IHr H s). rewrite E1 in IHr. cbn in IHr. lia.
-    + specialize (IHrs H s1). rewrite E2 in IHrs. cbn in IHrs. lia.
-  - (* BEnd *) intros e IHe H s. cbn [speaks_branches] in H. destruct e as [|rs]; [discriminate|]. cbn [evalb]. apply IHe. exact H.
-  - (* BCons *) intros b IHb bs IHbs H s. cbn [speaks_branches] in H. apply andb_true_iff in H. destruct H as [H1 H2].
-    cbn [evalb]. destruct s as [|[|] s'].
-    + apply IHbs. exact H2.
-    + apply IHb. exact H1.
-    + apply IHbs. exact H2.
-  - (* ENone *) exact I.
-  - (* ESome *) intros rs IH. exact IH.
+    + specialize (IHi H s). rewrite E1 in IHi. cbn [fst] in IHi. lia.
+    + specialize (IHr H s1). rewrite E2 in IHr. cbn [fst] in IHr. lia.
+  - (* ENil *) intros H. discriminate.
+  - (* ECons *) intros c th IHth el IHel rest IHrest H s. cbn [speaks_entries] in H. apply andb_true_iff in H. destruct H as [H1 H2].
+    cbn [tr_entries]. destruct (next s) as [o s0]. destruct (c && negb (o =? 0)) eqn:Ec.
+    + apply andb_true_iff in Ec. destruct Ec as [Ec _]. subst c.
+      destruct (tr_part th s0) as [e s1] eqn:E. cbn [fst]. rewrite !spoken_cons.
+      specialize (IHth H1 s0). rewrite E in IHth. cbn [fst] in IHth. lia.
+    + destruct el as [|r|es].
+      * destruct (tr_entries rest s0) as [e s1] eqn:E. cbn [fst]. rewrite spoken_cons.
+        specialize (IHrest H2 s0). rewrite E in IHrest. cbn [fst] in IHrest. lia.
+      * destruct (tr_part (PRepl r) s0) as [e s1] eqn:E. cbn [fst]. rewrite spoken_cons.
+        specialize (IHel H2 s0). rewrite E in IHel. cbn [fst] in IHel. lia.
+      * destruct (tr_part (PTest es) s0) as [e s1] eqn:E. cbn [fst]. rewrite spoken_cons.
+        specialize (IHel H2 s0). rewrite E in IHel. cbn [fst] in IHel. lia.
+  - (* PNone *) intros H. discriminate.
+  - (* PRepl *) intros r IH H s. cbn [speaks_part] in H. cbn [tr_part]. apply IH. exact H.
+  - (* PTest *) intros es IH H s. cbn [speaks_part] in H. cbn [tr_part]. apply IH. exact H.
 Qed.
 
-Theorem L_speaks_list_sound : forall rs, speaks_list rs = true -> forall s, (0 < fst (evals rs s))%nat.
+Theorem L_speaks_list_sound : forall r, speaks_items r = true -> forall s, (0 < spoken (fst (tr_items r s)))%nat.
 Proof. exact (proj1 (proj2 L_speaks_sound)). Qed.
+
+(* ---- a list is evaluated item by item, left to right, each item on the stream the previous ones left ---- *)
+Fixpoint app_items (a b : items) : items := match a with INil => b | ICons i r => ICons i (app_items r b) end.
+
+Theorem L_items_in_order : forall a b s,
+  tr_items (app_items a b) s =
+  (fst (tr_items a s) ++ fst (tr_items b (snd (tr_items a s))), snd (tr_items b (snd (tr_items a s)))).
+Proof.
+  induction a as [|i r IH]; intros b s.
+  - cbn. destruct (tr_items b s); reflexivity.
+  - cbn [app_items tr_items]. destruct (tr_item i s) as [e1 s1]. rewrite IH.
+    destruct (tr_items r s1) as [e2 s2]. cbn [fst snd]. destruct (tr_items b s2) as [e3 s3]. cbn [fst snd].
+    rewrite app_assoc. reflexivity.
+Qed.
+
+(* ---- what a test gives: the part of the first entry that decides ---- *)
+(* [decide es os]: the entries see the outcomes os one after the other; the first entry whose condition holds decides
+   for its then part, an entry before it that has an else part decides for that; None when no entry decides *)
+Fixpoint decide (es : entries) (os : list N) : option part :=
+  match es with
+  | ENil => None
+  | ECons c th el rest =>
+      let (o, os') := next os in
+      if c && negb (o =? 0) then Some th
+      else match el with PNone => decide rest os' | _ => Some el end
+  end.
+(* the entries visited (each consumes one outcome) up to and including the one that decides *)
+Fixpoint visited (es : entries) (os : list N) : nat :=
+  match es with
+  | ENil => O
+  | ECons c th el rest =>
+      let (o, os') := next os in
+      if c && negb (o =? 0) then 1%nat
+      else match el with PNone => Datatypes.S (visited rest os') | _ => 1%nat end
+  end.
+Fixpoint drop {A} (n : nat) (l : list A) : list A := match n, l with Datatypes.S n', _ :: l' => drop n' l' | _, _ => l end.
+
+Definition no_entry_events (e : list N) : list N := filter (fun x => negb ((x =? ev_entry) || (x =? ev_true))) e.
+
+Theorem L_test_gives_first_deciding_part : forall es s,
+  snd (tr_entries es s) = snd (tr_part (match decide es s with Some p => p | None => PNone end) (drop (visited es s) s)) /\
+  exists pre, fst (tr_entries es s) = pre ++ fst (tr_part (match decide es s with Some p => p | None => PNone end) (drop (visited es s) s)) /\
+              Forall (fun x => x = ev_entry \/ x = ev_true) pre.
+Proof.
+  induction es as [|c th el rest IH]; intros s.
+  - cbn. split; [reflexivity|]. exists []. split; [reflexivity|constructor].
+  - cbn [tr_entries decide visited]. destruct s as [|o s0]; cbn [next].
+    + (* stream exhausted: outcome 0 *) rewrite andb_false_r.
+      destruct el as [|r|es'].
+      * destruct (IH []) as [IH1 [pre [IH2 IH3]]]. destruct (tr_entries rest []) as [e s1] eqn:E. cbn [fst snd] in *.
+        replace (drop (Datatypes.S (visited rest [])) (@nil N)) with (drop (visited rest []) (@nil N)) by (destruct (visited rest []); reflexivity).
+        split; [exact IH1|]. exists (ev_entry :: pre). split; [rewrite IH2; reflexivity|]. constructor; [left; reflexivity|exact IH3].
+      * cbn [drop]. destruct (tr_part (PRepl r) []) as [e s1]. cbn [fst snd]. split; [reflexivity|]. exists [ev_entry]. split; [reflexivity|].
+        constructor; [left; reflexivity|constructor].
+      * cbn [drop]. destruct (tr_part (PTest es') []) as [e s1]. cbn [fst snd]. split; [reflexivity|]. exists [ev_entry]. split; [reflexivity|].
+        constructor; [left; reflexivity|constructor].
+    + destruct (c && negb (o =? 0)).
+      * cbn [drop]. destruct (tr_part th s0) as [e s1]. cbn [fst snd]. split; [reflexivity|]. exists [ev_entry; ev_true]. split; [reflexivity|].
+        constructor; [left; reflexivity|constructor; [right; reflexivity|constructor]].
+      * destruct el as [|r|es'].
+        -- destruct (IH s0) as [IH1 [pre [IH2 IH3]]]. destruct (tr_entries rest s0) as [e s1] eqn:E. cbn [fst snd drop] in *.
+           split; [exact IH1|]. exists (ev_entry :: pre). split; [rewrite IH2; reflexivity|]. constructor; [left; reflexivity|exact IH3].
+        -- cbn [drop]. destruct (tr_part (PRepl r) s0) as [e s1]. cbn [fst snd]. split; [reflexivity|]. exists [ev_entry]. split; [reflexivity|].
+           constructor; [left; reflexivity|constructor].
+        -- cbn [drop]. destruct (tr_part (PTest es') s0) as [e s1]. cbn [fst snd]. split; [reflexivity|]. exists [ev_entry]. split; [reflexivity|].
+           constructor; [left; reflexivity|constructor].
+Qed.
+
+(* an entry after one that has an else part is never reached: the else part of an entry in the middle ends the test *)
+Theorem L_else_ends_the_test : forall c th el rest rest' s, el <> PNone ->
+  tr_entries (ECons c th el rest) s = tr_entries (ECons c th el rest') s.
+Proof.
+  intros c th el rest rest' s Hel. cbn [tr_entries]. destruct (next s) as [o s0]. destruct (c && negb (o =? 0)); [reflexivity|].
+  destruct el; [contradiction|reflexivity|reflexivity].
+Qed.
+
+(* an insert over k nodes selects k times and evaluates its body between the selections *)
+Definition rep_body (body : items) : nat -> list N -> list N * list N :=
+  fix rep (n : nat) (s : list N) {struct n} : list N * list N :=
+    match n with
+    | Datatypes.O => ([], s)
+    | Datatypes.S n' => let (e1, s1) := tr_items body s in let (e2, s2) := rep n' s1 in (e1 ++ ev_x :: e2, s2)
+    end.
+
+Lemma tr_insert_eq body s :
+  tr_item (IInsert body) s =
+  let (k, s0) := next s in
+  if k =? 0 then ([ev_insert], s0) else
+  let (e, s1) := rep_body body (N.to_nat k - 1)%nat s0 in (ev_insert :: ev_nodes k :: ev_x :: e, s1).
+Proof. reflexivity. Qed.
+
+Lemma selections_app a b : selections (a ++ b) = (selections a + selections b)%nat.
+Proof. unfold selections. rewrite filter_app, app_length. reflexivity. Qed.
+
+Lemma rep_body_selections body : (forall s', selections (fst (tr_items body s')) = O) ->
+  forall n s0, selections (fst (rep_body body n s0)) = n.
+Proof.
+  intros Hb. induction n as [|n IHn]; intros s0; [reflexivity|].
+  cbn [rep_body]. fold (rep_body body). specialize (Hb s0). destruct (tr_items body s0) as [e1 s1]. specialize (IHn s1).
+  destruct (rep_body body n s1) as [e2 s2]. cbn [fst] in *. rewrite selections_app. rewrite Hb.
+  unfold selections in *. cbn [filter]. change (ev_x =? ev_x) with true. cbn [List.length]. lia.
+Qed.
+
+Theorem L_insert_selects_every_node : forall body k s, k <> 0 -> (forall s', selections (fst (tr_items body s')) = O) ->
+  selections (fst (tr_item (IInsert body) (k :: s))) = N.to_nat k.
+Proof.
+  intros body k s Hk Hb. rewrite tr_insert_eq. cbn [next]. destruct (k =? 0) eqn:E; [apply N.eqb_eq in E; contradiction|].
+  pose proof (rep_body_selections body Hb (N.to_nat k - 1)%nat s) as Hrep.
+  destruct (rep_body body (N.to_nat k - 1)%nat s) as [e2 s2]. cbn [fst] in *. unfold selections in *. cbn [filter].
+  replace (ev_x =? ev_insert) with false by reflexivity.
+  replace (ev_x =? ev_nodes k) with false by (unfold ev_x, ev_nodes; symmetry; apply N.eqb_neq; lia).
+  change (ev_x =? ev_x) with true. cbn [List.length]. lia.
+Qed.
